@@ -324,7 +324,7 @@ def run(repo: Repo, rep: Report, tier: str) -> None:
     zero_legal_truthiness(repo, rep, "none-not-falsy", {"MessageID", "MessageIDBeingRespondedTo", "Status"})
 
     rep.rule("peer-status-guarded", "every lookup of a peer-chosen status in a service-class status table is inside a try that covers KeyError")
-    rep.floor("peer-status lookups", check_peer_status_lookup(repo, rep), 2)
+    rep.floor("peer-status lookups", check_peer_status_lookup(repo, rep), 1)
     from .c26 import check_wrap_handler_uses
     rep.rule("handler-iterable", "_wrap_handler only iterates what the handler returned, inside its guarded try (C26's rule): nothing it does with the object can raise past the SCP")
     check_wrap_handler_uses(repo, rep, "handler-iterable")
@@ -351,4 +351,9 @@ def check_peer_status_lookup(repo, rep, rule: str = "peer-status-guarded") -> in
                         ok = True
             t = enclosing(t, (ast.Try,))
         rep.check(ok, rule, fq, enclosing(x, (ast.stmt,)) or x, f"`{norm(x)}` looks a status the peer chose up in the table without a handler for the miss: a sub-operation answered with a status outside the Storage table raises KeyError out of the SCP, pynetdicom aborts, and the C-GET / C-MOVE request is left without its final response", mod=sc, node=x)
+    for x in ast.walk(sc.tree):
+        # `TABLE.get(status, <default>)` expects the miss by construction
+        if isinstance(x, ast.Call) and isinstance(x.func, ast.Attribute) and x.func.attr == "get" and norm(x.func.value).endswith("_SERVICE_CLASS_STATUS") and len(x.args) == 2:
+            n += 1
+            rep.ok(rule, f"service_class.{qualname(x)} :: {norm(x)[:60]}", ".get() with a default")
     return n
